@@ -31,7 +31,7 @@ REQUIRED = {'update-optimal': 2000, 'update-untouched': 150,
     'end-optimal': 200, 'restart': 200, 'permutation': 200, 'reject': 60,
     'info': 200, 'cb-stop': 60, 'adaptive': 40, 'adaptive-stab': 20, 'f-update-optimal': 500,
     'f-descent': 100, 'f-end-optimal': 40, 'f-restart': 60,
-    'f-permutation': 60}
+    'f-permutation': 60, 'f-shared-start': 60, 'adaptive-reject': 20}
 REQUIRED_EVENTS = {'singleton-at-row0': 30, 'singleton-at-last-row': 30}
 ASSUMPTIONS = ['lamb=None (unregularised, rank-deficient solves) is outside '
     'the quantifier (lamb > 0) and is not driven',
@@ -502,6 +502,28 @@ def run_func(case, ctx):
     ctx.check('f-restart', np.array_equal(X, X_pristine), 'als_func changed '
         'the training points it was given (seen after repeated calls on the '
         'same array)')
+    # the initial approximation as a caller may well build it: one array
+    # OBJECT at several positions ([G0, G, G, Gd], a periodic start), against
+    # the same values in distinct arrays
+    if d >= 3:
+        rr = int(rng.integers(1, 4))
+        Gm = rng.normal(size=(rr, nm, rr))
+        ends = [rng.normal(size=(1, nm, rr)), rng.normal(size=(rr, nm, 1))]
+        Ash = [ends[0]] + [Gm] * (d - 2) + [ends[1]]
+        if rr == 1 and rng.random() < 0.5:
+            Ash = [Gm] * d
+        Adi = [G.copy() for G in Ash]
+        snap = [G.copy() for G in Ash]
+        As, _, logs = fit(X, y, Ash, nswp)
+        Ad2, _, _ = fit(X, y, Adi, nswp)
+        ctx.check('f-shared-start', ref.wellformed(As, n) is None and
+            rel_dev(As, Ad2) <= 1e-12, lambda: 'als_func started from a list '
+            'holding one core object at several positions differs from the '
+            f'start with the same values in distinct arrays by '
+            f'{rel_dev(As, Ad2):.3e}', d=d, ranks=ref.ranks_of(Ash))
+        ctx.check('f-shared-start', all(np.array_equal(g, h) for g, h in
+            zip(Ash, snap)), 'als_func modified its initial approximation '
+            '(shared core objects)')
     if nswp >= 2 and max(r) >= 2:
         ctx.nontrivial(['als_func', d, nm, r, m, nswp])
 
@@ -558,6 +580,18 @@ def run_adaptive(case, ctx):
         ctx.check('adaptive-stab', why is None and all(q <= rcap
             for q in ref.ranks_of(Ys)), f'als(use_stab=True): {why}, ranks '
             f'{ref.ranks_of(Ys) if why is None else None}')
+    # missing slice data must be rejected in the rank-adaptive mode as well
+    k = int(rng.integers(d))
+    v = [0, n[k] - 1, int(rng.integers(n[k]))][int(rng.integers(3))]
+    keep = I[:, k] != v
+    if keep.sum() >= 1:
+        try:
+            teneva.als(I[keep], y[keep], Y0, nswp=1, e=None, r=rcap,
+                lamb=lamb, info={})
+            ctx.viol('adaptive-reject', f'rank-adaptive als: slice {v} of mode '
+                f'{k} has no sample but no ValueError was raised (d = {d})')
+        except ValueError:
+            ctx.held('adaptive-reject')
     ctx.nontrivial(['adaptive', n, rcap, r0, m])
 
 
